@@ -39,6 +39,11 @@ func genFaultScn(rng *rand.Rand, maxN int, phase time.Duration) faultScn {
 			d := time.Duration(2+rng.Intn(40)) * time.Second
 			sc.Actions = append(sc.Actions, faultAction{At: t, Kind: "loss", P: p}, faultAction{At: t + d, Kind: "loss", P: 0})
 		case 2:
+			if rng.Intn(2) == 0 {
+				// stale duplicates: copies that arrive seconds to half a minute after the original
+				sc.Actions = append(sc.Actions, faultAction{At: t, Kind: "latedup", P: 0.3}, faultAction{At: t + 30*time.Second, Kind: "latedup", P: 0})
+				break
+			}
 			sc.Actions = append(sc.Actions, faultAction{At: t, Kind: "dup", P: 0.3}, faultAction{At: t + 20*time.Second, Kind: "dup", P: 0})
 		case 3:
 			d := []time.Duration{300 * time.Millisecond, time.Second, 3 * time.Second}[rng.Intn(3)]
@@ -574,7 +579,7 @@ func TestC05(t *testing.T) {
 	run.Count("judged", int64(judged))
 	run.Count("skipped_not_connected", int64(skipped))
 	if !run.Replaying() {
-		for _, k := range []string{"loss", "partition", "crash", "restart", "replace", "leave", "update", "delay", "dup"} {
+		for _, k := range []string{"loss", "partition", "crash", "restart", "replace", "leave", "update", "delay", "dup", "latedup"} {
 			run.Require("kind|" + k + "|judged")
 		}
 	}
